@@ -933,6 +933,50 @@ var mutators = map[string]mutator{
 		a.Reference, b.Reference = b.Name, a.Name
 		return &Mutation{Kind: "reference_cycle", Where: a.Name + "," + b.Name, Expect: "any"}
 	},
+	// types that extend themselves / each other (used as payload, result or error type):
+	// every traversal over bases carries a visited set
+	"extend_cycle": func(d *dg.Design, r *vh.RNG) *Mutation {
+		var objs []*dg.UserType
+		for _, t := range d.Types {
+			if t.Base.Kind == "object" && t.Reference == "" {
+				objs = append(objs, t)
+			}
+		}
+		if len(objs) == 0 {
+			return nil
+		}
+		a := objs[r.Intn(len(objs))]
+		desc := "self " + a.Name
+		if len(objs) > 1 && r.Bool() {
+			b := objs[r.Intn(len(objs))]
+			if b != a {
+				a.Extend, b.Extend = b.Name, a.Name
+				desc = "mutual " + a.Name + "," + b.Name
+			} else {
+				a.Extend = a.Name
+			}
+		} else {
+			a.Extend = a.Name
+		}
+		// make sure some method uses it
+		if x, ok := pickM(r, methods(d, func(_ *dg.Service, m *dg.Method) bool {
+			return m.Payload != nil && m.Payload.T.Kind == "object" && len(m.Payload.T.Attrs) > 0
+		})); ok && !a.Result {
+			switch r.Intn(3) {
+			case 0:
+				x.m.Payload.T.Attrs = append(x.m.Payload.T.Attrs, dg.F("cyc", dg.Ref(a.Name)))
+				desc += " in payload"
+			case 1:
+				t := dg.Ref(a.Name)
+				x.m.Errors = append(x.m.Errors, dg.ErrorDef{Name: "cyc_err", T: &t})
+				if x.m.HTTP != nil {
+					x.m.HTTP.Errors = append(x.m.HTTP.Errors, dg.ErrResponse{Name: "cyc_err", R: dg.Response{Status: 409}})
+				}
+				desc += " as error type"
+			}
+		}
+		return &Mutation{Kind: "extend_cycle", Where: desc, Expect: "any"}
+	},
 	"self_reference": func(d *dg.Design, r *vh.RNG) *Mutation {
 		t := firstObjType(d)
 		if t == nil || t.Extend != "" {
